@@ -76,6 +76,8 @@ static bool gFlagR = false;     // entity reference boundaries: R<name> ... r<na
 static bool gFlagW = false;     // drop ignorable whitespace
 static bool gFlagL = false;     // @line:col on S tokens (sax, sax2)
 static bool gFlagD = false;     // D<name> token for the DOCTYPE
+static bool gFlagT = false;     // DTD-level events: m<comment> p<target>,<data> (sax, sax2), I<internal subset> (dom, ls)
+static bool gInDTD = false;     // SAX2: between startDTD and endDTD
 static bool gFlagN = false;     // namespace info: qName built from prefix:local (sax), #uri#local on S tokens (sax2, dom, ls)
 static bool gNsOn = false;
 static const Locator* gLocator = 0;    // given to setDocumentLocator during the current parse
@@ -207,6 +209,23 @@ static void evDoctype(const XMLCh* name) {
     beginToken('D');
     hex4z(gEvents, name);
 }
+static void evDtdComment(const XMLCh* text) {
+    flushText();
+    beginToken('m');
+    hex4z(gEvents, text);
+}
+static void evDtdPI(const XMLCh* target, const XMLCh* data) {
+    flushText();
+    beginToken('p');
+    hex4z(gEvents, target);
+    gEvents += ',';
+    hex4z(gEvents, data);
+}
+static void evIntSubset(const XMLCh* text) {
+    flushText();
+    beginToken('I');
+    hex4z(gEvents, text);
+}
 
 static void recordError(unsigned int code, const XMLCh* domain, XMLErrorReporter::ErrTypes type,
                         XMLFileLoc line, XMLFileLoc col) {
@@ -245,6 +264,14 @@ public:
         SAXParser::doctypeDecl(elemDecl, publicId, systemId, hasIntSubset, hasExtSubset);
         if (gFlagD) evDoctype(elemDecl.getFullName());
     }
+    virtual void doctypeComment(const XMLCh* const comment) {
+        SAXParser::doctypeComment(comment);
+        if (gFlagT) evDtdComment(comment);
+    }
+    virtual void doctypePI(const XMLCh* const target, const XMLCh* const data) {
+        SAXParser::doctypePI(target, data);
+        if (gFlagT) evDtdPI(target, data);
+    }
     XH_ERROR_OVERRIDE(SAXParser)
 };
 class RecSAX2Reader : public SAX2XMLReaderImpl {
@@ -252,7 +279,14 @@ public:
     RecSAX2Reader() : SAX2XMLReaderImpl() {}
     // SAX2XMLReaderImpl forwards comments inside the DTD to LexicalHandler::comment as well; the
     // other APIs do not surface them as document events, so keep them out of the dump
-    virtual void doctypeComment(const XMLCh* const) {}
+    // (with flag t they are let through and printed as m tokens by the LexicalHandler)
+    virtual void doctypeComment(const XMLCh* const comment) {
+        if (gFlagT) SAX2XMLReaderImpl::doctypeComment(comment);
+    }
+    virtual void doctypePI(const XMLCh* const target, const XMLCh* const data) {
+        SAX2XMLReaderImpl::doctypePI(target, data);
+        if (gFlagT) evDtdPI(target, data);
+    }
     XH_ERROR_OVERRIDE(SAX2XMLReaderImpl)
 };
 class RecDOMParser : public XercesDOMParser {
@@ -363,8 +397,10 @@ public:
         if (gFlagR && reportedEntity(name)) evEntEnd(name);
     }
     virtual void startDTD(const XMLCh* const name, const XMLCh* const, const XMLCh* const) {
+        gInDTD = true;
         if (gFlagD) evDoctype(name);
     }
+    virtual void endDTD() { gInDTD = false; }
     virtual void characters(const XMLCh* const chars, const XMLSize_t length) {
         if (gInCData) { if (chars) gCDataBuf.append(chars, length); }
         else evText(chars, length);
@@ -390,7 +426,10 @@ public:
         if (gDepth > 0) gDepth--;
     }
     virtual void processingInstruction(const XMLCh* const target, const XMLCh* const data) { evPI(target, data); }
-    virtual void comment(const XMLCh* const chars, const XMLSize_t length) { evComment(chars, length); }
+    virtual void comment(const XMLCh* const chars, const XMLSize_t length) {
+        if (gInDTD) { if (gFlagT) { U16 t(chars, length); evDtdComment(t.c_str()); } return; }
+        evComment(chars, length);
+    }
     virtual void startCDATA() { gInCData = true; gCDataBuf.clear(); }
     virtual void endCDATA() {
         if (gInCData) evCData(gCDataBuf.data(), gCDataBuf.size());
@@ -448,6 +487,7 @@ static void walkNodeOpen(DOMNode* n, bool& descend) {
         break;
     case DOMNode::DOCUMENT_TYPE_NODE:
         if (gFlagD) evDoctype(n->getNodeName());
+        if (gFlagT) evIntSubset(((DOMDocumentType*)n)->getInternalSubset());
         break;
     default:
         break;
@@ -662,7 +702,7 @@ static std::string doParse(const std::vector<std::string>& a) {
     if (api != "sax" && api != "sax2" && api != "dom" && api != "ls") return "bad-request";
     if (!validHexDoc(hex)) return "bad-request";
 
-    bool fP = false, fR = false, fW = false, fL = false, fD = false, fN = false, fS = false;
+    bool fP = false, fR = false, fW = false, fL = false, fD = false, fN = false, fS = false, fT = false;
     if (a.size() > 5 && a[5] != "-") {
         if (a[5].empty()) return "bad-request";
         for (size_t i = 0; i < a[5].size(); i++) {
@@ -673,6 +713,7 @@ static std::string doParse(const std::vector<std::string>& a) {
             case 'l': fL = true; break;
             case 'd': fD = true; break;
             case 'n': fN = true; break;
+            case 't': fT = true; break;
             case 's': fS = true; break;      // schema processing on, validation "auto" (validate if a grammar is found)
             default: return "bad-request";
             }
@@ -689,7 +730,7 @@ static std::string doParse(const std::vector<std::string>& a) {
     }
     if (fP && api == "ls") return "unsupported | - | fh=0";
 
-    gFlagP = fP; gFlagR = fR; gFlagW = fW; gFlagL = fL; gFlagD = fD; gFlagN = fN; gNsOn = (nsS == "1");
+    gFlagP = fP; gFlagR = fR; gFlagW = fW; gFlagL = fL; gFlagD = fD; gFlagN = fN; gNsOn = (nsS == "1"); gFlagT = fT; gInDTD = false;
     gEntTable.swap(table);
 
     const bool ns = nsS == "1";
@@ -718,7 +759,7 @@ static std::string doParse(const std::vector<std::string>& a) {
             // the plain handler is only needed for the locator (l) / to enable DOCTYPE events (d)
             guarded([&] {
                 p->setDocumentHandler(fL ? &gSax1Aux : 0);
-                p->setDTDHandler(fD ? &gSax1Aux : 0);
+                p->setDTDHandler((fD || fT) ? &gSax1Aux : 0);
             });
             XMLPScanToken token;
             bool started = false;
